@@ -137,7 +137,8 @@ namespace Pistache
             throw std::invalid_argument("Invalid port: empty port");
         char* end     = nullptr;
         long port_num = strtol(data.c_str(), &end, 10);
-        if (*end != 0 || port_num < Port::min() || port_num > Port::max())
+        // the whole text must have been consumed (an embedded NUL must not end it early)
+        if (end != data.c_str() + data.size() || port_num < Port::min() || port_num > Port::max())
             throw std::invalid_argument("Invalid port: " + data);
         port = static_cast<uint16_t>(port_num);
     }
@@ -419,7 +420,7 @@ namespace Pistache
         {
             char* end = nullptr;
             long port = strtol(portPart.c_str(), &end, 10);
-            if (*end != 0 || port < Port::min() || port > Port::max())
+            if (end != portPart.c_str() + portPart.size() || port < Port::min() || port > Port::max())
                 throw std::invalid_argument("Invalid port");
             port_ = Port(static_cast<uint16_t>(port));
         }
